@@ -28,7 +28,7 @@ from vlib.conf import run_conf
 
 PROP = "C11"
 META = {
-    "ready": False,
+    "ready": True,
     "level": "model_checking",
     "technique": "TLA+ state machine of thunk-block assignment exhaustively checked by TLC over scaled object sequences, every run replayed into the real assign_thunk_blocks in-process; end-to-end AArch64 links with >128 MiB paddings decoded statically (B/BL -> thunk -> target)",
     "level_text": "Thunks.tla models assign_thunk_blocks step by step; TLC explores every sequence of up to 5 (quick) / 6-7 (thorough) objects over sizes 1..5 with a scaled range and checks block structure, that far pairs always get a thunk symbol, and reachability of the block from every site when objects are no longer than the slack; every explored run (thousands) is replayed into the real function with the same numbers and must give the identical (block, owner) assignment; real AArch64 links with callers and callees more than 128 MiB apart are decoded statically and every labelled branch must reach its symbol directly or through an adrp/add/br thunk.",
